@@ -7,7 +7,7 @@ once and mutates nothing, an update of a cached timestamp is still accepted.
 import ast
 
 from ..model import dotted, unparse, norm, walk_no_nested
-from ..rulelib import Ctx, short
+from ..rulelib import Ctx, short, resolve_copies
 from ..cachemodel import CacheModel
 from .c02 import rule_delta, rule_lockset
 
@@ -17,31 +17,110 @@ def _returns(m):
 
 
 def rule_limit_property(check, cm, rule, prop, setting):
+  """the property answers exactly `live self.size >= settings.<setting>` (an infinite limit is never reached).
+
+  Decided as a truth table: on every path to a return (sa/paths.py) the returned boolean expression is evaluated for
+  every valuation of the two atoms "limit is infinite" and "size >= limit" that the path's own decisions allow."""
+  import itertools
+  from ..paths import PathExec
+  cx = cm.cx
   m = cm.methods.get(prop)
   if m is None or not m.is_property:
     rule.cannot_decide('%s.%s is not a property any more' % (cm.cls.name, prop))
     return
-  ok_live = False
-  for r in _returns(m):
-    v = r.value
-    if isinstance(v, ast.Constant) and v.value is False:
-      # allowed only under a test that the limit is infinite
-      par = getattr(r, '_parent', None)
-      t = unparse(par.test).replace(' ', '') if isinstance(par, ast.If) else ''
-      if "float('inf')" in t and setting in t and any(x is r for x in par.body):
-        rule.ok('%s: `return False` only when %s is infinite' % (prop, setting), m.loc(r))
-      else:
-        rule.violate('%s returns False' % prop, m, r, '%s can answer False regardless of the cache size' % prop)
+  g = cx.cfg(m)
+  px = PathExec(cx, m, unroll=0, follow_exceptions=False)
+  SIZE = ('attr', ('param', m.params[0]), 'size')
+  INF = ('const', float('inf'))
+
+  def is_limit(t):
+    return isinstance(t, tuple) and t[0] == 'attr' and t[-1] == setting
+
+  def atom(t):
+    """('inf' | 'ge', positive?) for a comparison term, None for anything else"""
+    if not (isinstance(t, tuple) and t[0] == 'cmp'):
+      return None
+    op, l, r = t[1], t[2], t[3]
+    if (is_limit(l) and r == INF) or (is_limit(r) and l == INF):
+      if op in ('Eq', 'Is'):
+        return ('inf', True)
+      if op in ('NotEq', 'IsNot'):
+        return ('inf', False)
+      if (op == 'GtE' and is_limit(l)) or (op == 'LtE' and is_limit(r)):
+        return ('inf', True)
+      if (op == 'Lt' and is_limit(l)) or (op == 'Gt' and is_limit(r)):
+        return ('inf', False)
+    if l == SIZE and is_limit(r):
+      return {'GtE': ('ge', True), 'Lt': ('ge', False)}.get(op)
+    if r == SIZE and is_limit(l):
+      return {'LtE': ('ge', True), 'Gt': ('ge', False)}.get(op)
+    return None
+
+  def value(e, env, val):
+    """truth value of the boolean expression under the atom valuation, or None if it has an unrecognised part"""
+    if isinstance(e, ast.Constant) and isinstance(e.value, bool):
+      return e.value
+    if isinstance(e, ast.UnaryOp) and isinstance(e.op, ast.Not):
+      v = value(e.operand, env, val)
+      return None if v is None else not v
+    if isinstance(e, ast.BoolOp):
+      vs = [value(x, env, val) for x in e.values]
+      if any(v is None for v in vs):
+        return None
+      return all(vs) if isinstance(e.op, ast.And) else any(vs)
+    if isinstance(e, ast.IfExp):
+      c = value(e.test, env, val)
+      return None if c is None else value(e.body if c else e.orelse, env, val)
+    if isinstance(e, ast.Name):
+      srcs = resolve_copies(m, e)
+      if len(srcs) == 1 and isinstance(srcs[0], ast.AST) and srcs[0] is not e:
+        return value(srcs[0], env, val)
+      return None
+    if isinstance(e, ast.Compare):
+      a = atom(px.test_term(e, env))
+      if a is None:
+        return None
+      return val[a[0]] == a[1]
+    return None
+
+  rets = [n for n in g.nodes if n.kind == 'stmt' and isinstance(n.ast, ast.Return)]
+  decided = 0
+  for hit in px.run(rets):
+    fixed = {}
+    unknown_cond = None
+    for pol, t, a, n in hit.conds:
+      if pol not in ('T', 'F'):
+        continue
+      at = atom(t)
+      if at is None:
+        unknown_cond = a
+        continue
+      fixed[at[0]] = at[1] == (pol == 'T')
+    if unknown_cond is not None:
+      rule.violate('%s depends on something else' % prop, m, unknown_cond, '%s is additionally conditioned on `%s`: the bound no '
+                   'longer follows from the guarded increment' % (prop, unparse(unknown_cond)))
       continue
-    txt = unparse(v).replace(' ', '') if v is not None else ''
-    if isinstance(v, ast.Compare) and len(v.ops) == 1 and isinstance(v.ops[0], ast.GtE) and \
-       dotted(v.left) == 'self.size' and (dotted(v.comparators[0]) or '').endswith(setting):
-      ok_live = True
-      rule.ok('%s compares the live self.size >= settings.%s' % (prop, setting), m.loc(r))
+    e = hit.node.ast.value
+    for inf, ge in itertools.product((False, True), (False, True)):
+      if inf and ge:
+        continue               # a finite size is never >= an infinite limit
+      if fixed.get('inf', inf) != inf or fixed.get('ge', ge) != ge:
+        continue
+      v = value(e, hit.env, {'inf': inf, 'ge': ge}) if e is not None else None
+      if v is None:
+        rule.violate('%s comparison' % prop, m, hit.node.ast, '%s does not return `self.size >= settings.%s` (found `%s`): '
+                     'the bound no longer follows from the guarded increment' % (prop, setting, unparse(e) if e is not None else 'None'))
+        break
+      want = ge and not inf
+      if v != want:
+        rule.violate('%s comparison' % prop, m, hit.node.ast, '%s answers %s where `self.size >= settings.%s` is %s (limit %s): '
+                     'the bound no longer follows from the guarded increment' % (
+                       prop, v, setting, want, 'infinite' if inf else 'finite'))
+        break
     else:
-      rule.violate('%s comparison' % prop, m, r, '%s does not return `self.size >= settings.%s` (found `%s`): the '
-                   'bound no longer follows from the guarded increment' % (prop, setting, txt))
-  if not ok_live and not any(i['verdict'] == 'VIOLATED' for i in rule.instances):
+      decided += 1
+      rule.ok('%s: `%s` == (live self.size >= settings.%s) on this path' % (prop, short(hit.node.ast, 60), setting), m.loc(hit.node.ast))
+  if px.truncated or not decided and not any(i['verdict'] == 'VIOLATED' for i in rule.instances):
     rule.cannot_decide('%s has no recognisable comparison' % prop)
 
 
@@ -66,7 +145,7 @@ def run(check):
   r_upd = check.rule('R-C10-update-when-full', 1, 'an update of an already cached timestamp is stored even when full')
   r_grow = check.rule('R-C10-guarded-growth', 1, 'growth only after is_full was False in the same critical section')
   rule_delta(check, cm, r_delta, r10=r_ref, r10u=r_upd, r10g=r_grow)
-  r_prop = check.rule('R-C10-is-full', 2, 'is_full compares the live size with the hard limit')
+  r_prop = check.rule('R-C10-is-full', 1, 'is_full compares the live size with the hard limit')
   rule_limit_property(check, cm, r_prop, 'is_full', 'CACHE_SIZE_HARD_MAX')
 
   # ------------------------------------------------------------------ limits in conf.py
@@ -92,37 +171,82 @@ def run(check):
         if isinstance(t, ast.Subscript) and isinstance(t.slice, ast.Constant) and t.slice.value in ('CACHE_SIZE_HARD_MAX', 'CACHE_SIZE_LOW_WATERMARK'):
           found.setdefault(t.slice.value, []).append(n)
 
-  def factor(v):
-    txt = unparse(v).replace(' ', '')
-    if txt.endswith('MAX_CACHE_SIZE'):
-      return 1.0
-    if isinstance(v, ast.BinOp) and isinstance(v.op, ast.Mult):
-      for a, b in ((v.left, v.right), (v.right, v.left)):
-        if (dotted(a) or '').endswith('MAX_CACHE_SIZE') and isinstance(b, ast.Constant):
-          return float(b.value)
-    return None
   hm = found.get('CACHE_SIZE_HARD_MAX', [])
-  if len(hm) != 2:
-    r_lim.cannot_decide('expected two assignments of CACHE_SIZE_HARD_MAX in conf.py, found %d' % len(hm))
-  for n in hm:
-    par = getattr(n, '_parent', None)
-    fc = None
-    if isinstance(par, ast.If) and 'USE_FLOW_CONTROL' in unparse(par.test):
-      neg = isinstance(par.test, ast.UnaryOp)
-      in_body = any(x is n for x in par.body)
-      fc = in_body != neg
-    f = factor(n.value)
-    want = 1.05 if fc else 1.0
-    if fc is None:
-      r_lim.violate('hard limit not tied to USE_FLOW_CONTROL', 'carbon.conf:<module>', n, 'CACHE_SIZE_HARD_MAX is assigned '
-                    'outside an `if settings.USE_FLOW_CONTROL` arm', construct=norm(n))
-    elif f is not None and abs(f - want) < 1e-12:
-      r_lim.ok('flow control %s: hard limit = MAX_CACHE_SIZE * %s' % ('on' if fc else 'off', want),
-               '%s:%d' % (conf.relpath, n.lineno))
-    else:
-      r_lim.violate('hard limit factor', 'carbon.conf:<module>', n, 'with flow control %s the hard limit is `%s`, the '
-                    'documented value is MAX_CACHE_SIZE%s' % ('on' if fc else 'off', unparse(n.value),
-                                                                ' * 1.05' if fc else ''), construct=norm(n))
+  lw = found.get('CACHE_SIZE_LOW_WATERMARK', [])
+  owners = {check.repo.enclosing_function(conf, n) for n in hm + lw}
+  owners.discard(None)
+  if len(owners) != 1 or not hm or not lw:
+    r_lim.cannot_decide('CACHE_SIZE_HARD_MAX / CACHE_SIZE_LOW_WATERMARK are not assigned in one function of conf.py '
+                        '(%d / %d assignments)' % (len(hm), len(lw)))
+  else:
+    from ..paths import PathExec
+    from ..symeval import show
+    from ..rulelib import local_sources
+    fo = owners.pop()
+    go = cx.cfg(fo)
+    # backward slice over the locals feeding the two settings: the exploration starts at its first statement
+    rel = set()
+    names = set()
+    todo = list(hm + lw)
+    while todo:
+      a = todo.pop()
+      if id(a) in {id(x) for x in rel}:
+        continue
+      rel.add(a)
+      for x in ast.walk(a.value):
+        if isinstance(x, ast.Name) and x.id not in names:
+          names.add(x.id)
+          for st in walk_no_nested(fo.node, include_self=False):
+            if isinstance(st, ast.Assign) and any(isinstance(t, ast.Name) and t.id == x.id for t in st.targets):
+              todo.append(st)
+    rel_nodes = [n for a in rel for n in go.nodes_of(a)]
+    starts = [n for n in rel_nodes if not any(m is not n and n in go.reach(go.after(m), normal_only=True) for m in rel_nodes)]
+    MAXS = ('attr', ('param', 'settings'), 'MAX_CACHE_SIZE')
+
+    def factor_of(t):
+      if t == MAXS:
+        return 1.0
+      if isinstance(t, tuple) and t[0] == 'binop' and t[1] == 'Mult':
+        for a, b in ((t[2], t[3]), (t[3], t[2])):
+          if a == MAXS and isinstance(b, tuple) and b[0] == 'const' and isinstance(b[1], (int, float)):
+            return float(b[1])
+      return None
+    px = PathExec(cx, fo, unroll=0, follow_exceptions=False)
+    judged = set()
+    for hit in px.run([go.exit], start=starts):
+      hard = hit.env.get('@settings.CACHE_SIZE_HARD_MAX', hit.env.get("@settings['CACHE_SIZE_HARD_MAX']"))
+      low = hit.env.get('@settings.CACHE_SIZE_LOW_WATERMARK', hit.env.get("@settings['CACHE_SIZE_LOW_WATERMARK']"))
+      flow = hit.decided(lambda t: isinstance(t, tuple) and t[0] == 'truth' and isinstance(t[1], tuple) and t[1][0] == 'attr' and
+                         t[1][-1] == 'USE_FLOW_CONTROL')
+      key = (hard, low, flow)
+      if key in judged:
+        continue
+      judged.add(key)
+      where = hm[0]
+      if hard is None or low is None:
+        r_lim.violate('limit not installed', fo, where, 'on some path through %s CACHE_SIZE_HARD_MAX / CACHE_SIZE_LOW_WATERMARK '
+                      'is not assigned' % fo.qualname)
+        continue
+      if flow is None:
+        r_lim.violate('hard limit not tied to USE_FLOW_CONTROL', fo, where, 'CACHE_SIZE_HARD_MAX is installed on a path that '
+                      'did not look at settings.USE_FLOW_CONTROL', construct='CACHE_SIZE_HARD_MAX without USE_FLOW_CONTROL')
+        continue
+      fct = factor_of(hard)
+      want = 1.05 if flow == 'T' else 1.0
+      if fct is not None and abs(fct - want) < 1e-12:
+        r_lim.ok('flow control %s: hard limit = MAX_CACHE_SIZE * %s' % ('on' if flow == 'T' else 'off', want), fo.loc(where))
+      else:
+        r_lim.violate('hard limit factor', fo, where, 'with flow control %s the hard limit is `%s`, the documented value is '
+                      'MAX_CACHE_SIZE%s' % ('on' if flow == 'T' else 'off', show(hard), ' * 1.05' if flow == 'T' else ''),
+                      construct='hard limit, flow control %s' % ('on' if flow == 'T' else 'off'))
+      fl = factor_of(low)
+      if fl is not None and abs(fl - 0.95) < 1e-12:
+        r_lim.ok('low watermark = MAX_CACHE_SIZE * 0.95', fo.loc(lw[0]))
+      else:
+        r_lim.violate('low watermark factor', fo, lw[0], 'the low watermark is `%s`, documented value is 95%% of MAX_CACHE_SIZE'
+                      % show(low), construct='low watermark factor')
+    if px.truncated:
+      r_lim.cannot_decide('too many paths through %s' % fo.qualname)
   for n in hm:
     f_ = check.repo.enclosing_function(conf, n)
     if f_ is not None and f_.name != 'postOptions':
@@ -130,17 +254,6 @@ def run(check):
       if any(getattr(c, 'lineno', 0) > n.lineno for c in upd):
         r_lim.violate('limit derived before the configuration is complete', f_, n, 'CACHE_SIZE_HARD_MAX is computed in %s before later '
                       'configuration sections are read' % f_.qualname)
-  lw = found.get('CACHE_SIZE_LOW_WATERMARK', [])
-  for n in lw:
-    f = factor(n.value)
-    if f is not None and abs(f - 0.95) < 1e-12:
-      r_lim.ok('low watermark = MAX_CACHE_SIZE * 0.95', '%s:%d' % (conf.relpath, n.lineno))
-    else:
-      r_lim.violate('low watermark factor', 'carbon.conf:<module>', n, 'the low watermark is `%s`, documented value is 95%% '
-                    'of MAX_CACHE_SIZE' % unparse(n.value), construct=norm(n))
-  if not lw:
-    r_lim.cannot_decide('no assignment of CACHE_SIZE_LOW_WATERMARK in conf.py')
-
   # ------------------------------------------------------------------ overflow counter wiring
   r_cnt = check.rule('R-C10-overflow-counter', 1, 'cacheOverflow feeds the cache.overflow counter')
   from ..registry import handlers_of
